@@ -109,7 +109,7 @@ theorem C04_cancel_io_fails (c : Conf) (hr : O.dlRd = true) (hw : O.dlWr = true)
 def quiet : Oracle :=
   { neg := fun _ _ _ => ⟨0, false, false⟩, list := fun _ _ _ => ⟨false, false⟩,
     parseErr := fun _ _ _ => false, fault := fun _ => false, cancel := fun _ => false,
-    block := fun _ => false, dlRd := true, dlWr := true }
+    block := fun _ => false, dlRd := true, dlWr := true, layer := fun _ _ => false }
 
 
 
